@@ -304,6 +304,10 @@ func sgForeignOffer(r *vfRand, shape int, flavor string, fs *sgForeignSession) s
 		{"3", "2", "5", "4", "1", "0", "7", "6"}, {"10", "1", "100", "video-hd", "video", "vid", "v", "2"}, {"2", "1", "0", "4", "3", "6", "5", "8"}}
 	if fs.mids == nil {
 		fs.mids = midStyles[((shape%len(midStyles))+len(midStyles))%len(midStyles)]
+		if flavor == "namedapp" {
+			// named mids first, and the application section (which no transceiver stands for) under a number
+			fs.mids = []string{"a", "0", "b", "1", "c", "2", "d", "3"}
+		}
 	}
 	hasApp := false
 	for _, s := range fs.secs {
@@ -340,6 +344,10 @@ func sgForeignOffer(r *vfRand, shape int, flavor string, fs *sgForeignSession) s
 		default:
 			s.kind = "video"
 		}
+		if flavor == "namedapp" && i == 1 && !hasApp {
+			s.kind = "application"
+			hasApp = true
+		}
 		if flavor == "text" && last {
 			s.kind = vfPick(r, []string{"text", "message"})
 		}
@@ -357,6 +365,9 @@ func sgForeignOffer(r *vfRand, shape int, flavor string, fs *sgForeignSession) s
 	}
 	if fs.secs == nil {
 		n := r.Range(1, 4)
+		if flavor == "namedapp" && n < 2 {
+			n = 2
+		}
 		for i := 0; i < n; i++ {
 			fs.secs = append(fs.secs, newSection(i, i == n-1))
 		}
